@@ -54,6 +54,7 @@ pub uninterp spec fn snake(s: Seq<char>) -> Seq<char>;
 pub uninterp spec fn camel(s: Seq<char>) -> Seq<char>;
 // std (A-std)
 pub uninterp spec fn lowercase(s: Seq<char>) -> Seq<char>;
+pub uninterp spec fn trimmed(s: Seq<char>) -> Seq<char>;   // str::trim
 
 impl Str {
     #[verifier::external_body]
@@ -76,6 +77,8 @@ impl Str {
     pub fn to_upper_camel_case(&self) -> (r: Str) ensures r@ == camel(self@) { unimplemented!() }
     #[verifier::external_body]
     pub fn to_lowercase(&self) -> (r: Str) ensures r@ == lowercase(self@) { unimplemented!() }
+    #[verifier::external_body]
+    pub fn trim(&self) -> (r: &Str) ensures r@ == trimmed(self@) { unimplemented!() }
     #[verifier::external_body]
     pub fn starts_with(&self, p: &Str) -> (r: bool) ensures r == (p@.len() <= self@.len() && self@.subrange(0, p@.len() as int) == p@) { self.s.starts_with(&p.s) }
     #[verifier::external_body]
